@@ -104,8 +104,12 @@ pub mod q {
     ge_full_rank!(e2_swap_needed, 2, [[1u32], [0u32, 1]]);
 }
 
-#[cfg(feature = "c19_t")]
-pub mod t {
+/// Shapes with three and four equations: written, measured, and NOT part of any tier -- every one of
+/// them exhausts the 16 GB cap (three equations: also 44 GB; four equations: 44 GB), because the
+/// data-dependent `continue 'main` / `bail!` make the loop counters symbolic once CBMC merges the states
+/// (DESIGN.md §7.2). Kept so that the measurement can be repeated (`--features c19_x`).
+#[cfg(feature = "c19_x")]
+pub mod x {
     use super::*;
     // three equations
     ge!(e3_dependent_sum, 3, [[0u32, 1], [1u32, 2], [0u32, 2]]);
